@@ -6,7 +6,6 @@ package sqlite
 
 import (
 	"fmt"
-	"strconv"
 	"strings"
 
 	"ariga.io/atlas/schemahcl"
@@ -225,7 +224,7 @@ func indexSpec(idx *schema.Index) (*sqlspec.Index, error) {
 		return nil, err
 	}
 	if i := (IndexPredicate{}); sqlx.Has(idx.Attrs, &i) && i.P != "" {
-		spec.Extra.Attrs = append(spec.Extra.Attrs, specutil.VarAttr("where", strconv.Quote(i.P)))
+		spec.Extra.Attrs = append(spec.Extra.Attrs, schemahcl.StringAttr("where", i.P))
 	}
 	return spec, nil
 }
